@@ -42,11 +42,13 @@ def _hash_tree(repo):
     for p in files:
         try:
             with open(p, "rb") as fh:
-                h.update(p.encode())
+                # relative names: a scratch copy with the same content shares the cache entry
+                rel = os.path.relpath(p, repo) if p.startswith(repo + os.sep) else os.path.relpath(p, DRIVER_DIR)
+                h.update(rel.encode())
                 h.update(b"\0")
                 h.update(fh.read())
         except FileNotFoundError:
-            h.update(p.encode() + b"\0missing")
+            h.update(os.path.basename(p).encode() + b"\0missing")
     return h.hexdigest()[:20]
 
 
@@ -110,7 +112,7 @@ def ensure_facts(repo="/repo", config="default", crate="calamine"):
         return out, h, time.time() - t0
 
 
-def _prune(root, keep, maxn=6):
+def _prune(root, keep, maxn=150):
     try:
         ds = [(os.path.getmtime(os.path.join(root, d)), d) for d in os.listdir(root) if d != keep]
     except FileNotFoundError:
